@@ -670,7 +670,7 @@ def c12_history(spec: dict) -> dict:
 # ----------------------------------------------------------------------------- C13 shadow run
 
 
-def c13_shadow_run(texts: list, rng_seed: str, workdir: str) -> dict:
+def c13_shadow_run(texts: list, rng_seed: str, workdir: str, dense: bool = False) -> dict:
     """All-native interpreter: run each text end to end (parse, schedule, every report) plus the probe
     client, with the shadow monitor comparing native and pure-Python outcome of every paired call."""
     import random
@@ -708,7 +708,7 @@ def c13_shadow_run(texts: list, rng_seed: str, workdir: str) -> dict:
                             report_observation(project, k, outdir)
                         except Exception:
                             pass
-                    probes += probe_client(project, rng)
+                    probes += probe_client(project, rng, dense)
                 except Exception as e:
                     outcomes.append("probe:" + type(e).__name__)
     finally:
